@@ -34,13 +34,7 @@ func runC10(c *Ctx) {
 	// "never ... counted": the census counts the claimed pods only (they are the reconcile's input); outside the census a
 	// pod is counted only after this controller's own successful create of it -- a create that failed, AlreadyExists
 	// included, says nothing about whose pod is there (the adjustment rule of C12, as a clause of this property)
-	{
-		n0 := len(c.Obs)
-		c.only = map[string]string{"C12.1-adjustment-follows-write": "C10.4-counted-only-after-its-own-successful-write"}
-		runC12(c)
-		c.only = nil
-		c.Floor("C10.4-adjustments-after-writes", len(c.Obs)-n0, 6)
-	}
+	c.withOnly(map[string]string{"C12.1-adjustment-follows-write": "C10.4-counted-only-after-its-own-successful-write"}, nil, "C10.4-adjustments-after-writes", 6, func() { runC12(c) })
 	// C10.6 the set is written only through status
 	nUS := 0
 	for _, s := range c.G.Sites {
@@ -433,6 +427,7 @@ func (c *Ctx) freshConfirmation() {
 	if adoptPod == nil || canAdopt == nil || recheck == nil {
 		return
 	}
+	c.uncachedReadsAreQuorumReads()
 	fn, an := c.Analysis(adoptPod)
 	info := adoptPod.Pkg.TypesInfo
 	var gate ast.Stmt
@@ -934,4 +929,101 @@ func isCachedRoot(e ast.Expr, isCached func(ast.Expr) bool) bool {
 			return false
 		}
 	}
+}
+
+// uncachedReadsAreQuorumReads: "an uncached read confirms that S still exists": a Get of the set that goes to the API
+// server does so with an empty resourceVersion in its options -- with a resourceVersion set ("0" in particular) the
+// server may answer from its watch cache, which can lag like the informer does.
+func (c *Ctx) uncachedReadsAreQuorumReads() {
+	const rule = "C10.3-fresh-read-is-a-quorum-read"
+	n := 0
+	// no store into the ResourceVersion field of a GetOptions anywhere in the controller packages
+	stored := map[string]bool{}
+	for _, fi := range c.P.Funcs() {
+		if !strings.HasPrefix(fi.Pkg.PkgPath, load.RootMod+"/pkg/") {
+			continue
+		}
+		for _, fs := range fieldStores(fi.Pkg.TypesInfo, fi.Decl.Body) {
+			if fs.Field == "ResourceVersion" && isNamed(fs.Owner, "k8s.io/apimachinery/pkg/apis/meta/v1", "GetOptions") && !fs.Literal {
+				stored[types.ExprString(fs.Base)] = true
+			}
+		}
+	}
+	emptyRV := func(info *types.Info, e ast.Expr) (bool, string) {
+		e = ast.Unparen(e)
+		cl, ok := e.(*ast.CompositeLit)
+		if !ok {
+			return false, "the options are not a literal: " + types.ExprString(e)
+		}
+		for i, el := range cl.Elts {
+			kv, ok := el.(*ast.KeyValueExpr)
+			var v ast.Expr
+			if ok {
+				if k, isID := kv.Key.(*ast.Ident); !isID || k.Name != "ResourceVersion" {
+					continue
+				}
+				v = kv.Value
+			} else if i == 1 {
+				v = el // positional: TypeMeta, ResourceVersion
+			} else {
+				continue
+			}
+			if tv, ok := info.Types[v]; !ok || tv.Value == nil || tv.Value.ExactString() != `""` {
+				return false, "resourceVersion is set to " + types.ExprString(v)
+			}
+		}
+		return true, ""
+	}
+	for _, s := range c.G.Sites {
+		if s.Class != "read" || s.Verb != "Get" || s.Resource != "statefulsets.pingcap" || s.Fn.Pkg() == nil || !strings.HasPrefix(s.Fn.Pkg().Path(), load.RootMod+"/pkg/") {
+			continue
+		}
+		n++
+		name := fmt.Sprintf("%s: %s.Get options", s.Fn.Name(), s.Resource)
+		var opt ast.Expr
+		for _, a := range s.Call.Args {
+			if isNamed(s.Info.TypeOf(a), "k8s.io/apimachinery/pkg/apis/meta/v1", "GetOptions") {
+				opt = a
+			}
+		}
+		if opt == nil {
+			c.Bad(rule, name, s.Call.Pos(), "no GetOptions argument found")
+			continue
+		}
+		good, why := emptyRV(s.Info, opt)
+		if id, ok := ast.Unparen(opt).(*ast.Ident); ok {
+			good, why = false, "the options variable "+id.Name+" has no initialiser that can be read"
+			if stored[id.Name] {
+				why = "the ResourceVersion of " + id.Name + " is assigned somewhere"
+			} else if v, isVar := s.Info.ObjectOf(id).(*types.Var); isVar {
+				// the single initialiser of the variable (package level or local)
+				for _, pk := range c.P.Roots {
+					for _, f := range pk.Syntax {
+						ast.Inspect(f, func(x ast.Node) bool {
+							switch y := x.(type) {
+							case *ast.ValueSpec:
+								for i, nm := range y.Names {
+									if pk.TypesInfo.ObjectOf(nm) == v && i < len(y.Values) {
+										good, why = emptyRV(pk.TypesInfo, y.Values[i])
+									} else if pk.TypesInfo.ObjectOf(nm) == v && len(y.Values) == 0 {
+										good, why = true, ""
+									}
+								}
+							case *ast.AssignStmt:
+								for i, l := range y.Lhs {
+									if lid, ok := l.(*ast.Ident); ok && pk.TypesInfo.ObjectOf(lid) == v && len(y.Rhs) == len(y.Lhs) {
+										good, why = emptyRV(pk.TypesInfo, y.Rhs[i])
+									}
+								}
+							}
+							return true
+						})
+					}
+				}
+			}
+		}
+		c.Check(good, rule, name, s.Call.Pos(), "the options leave resourceVersion empty: the read is served from the store, not from a cache",
+			"the read that is to confirm the set may be answered from the API server's watch cache: "+why+"; a set deleted or replaced a moment ago then still passes the check and adopts")
+	}
+	c.Floor(rule+"-sites", n, 1)
 }
